@@ -11,7 +11,7 @@ if [ ! -d $WT ]; then git -C /repo worktree add -q --detach $WT HEAD; fi
 git -C $WT checkout -q --detach "$(git -C /repo rev-parse HEAD)" && git -C $WT checkout -q -- . && git -C $WT clean -fdq
 cp "$SRC/patch.diff" "$OUT/patch.diff"; cp "$SRC/demo.py" "$OUT/demo.py"; [ -f "$SRC/notes.md" ] && cp "$SRC/notes.md" "$OUT/notes.md"
 timeout 120 /venv/bin/python "$OUT/demo.py" $WT >/tmp/seedeval.demo0 2>&1; D0=$?
-git -C $WT apply "$OUT/patch.diff" || { echo "patch does not apply"; exit 2; }
+git -C $WT apply "$OUT/patch.diff" 2>/dev/null || (cd $WT && patch -p1 -F3 -s < "$OUT/patch.diff") || { echo "patch does not apply"; exit 2; }
 SUITE=$(cd $WT && env -u PDPY11_VERIF /venv/bin/python -m pytest -q -p no:cacheprovider --continue-on-collection-errors 2>&1 | tail -1)
 timeout 120 /venv/bin/python "$OUT/demo.py" $WT >/tmp/seedeval.demo1 2>&1; D1=$?
 echo "suite: $SUITE | demo clean=$D0 patched=$D1"
